@@ -458,6 +458,18 @@ fn run_case_inner(line: &str) -> Option<String> {
             let f = mk_frame(parse_u16(a)?, parse_u8(ty)?, parse_hex(d)?)?;
             crate::iomock::io_write(&f, crate::iomock::parse_wevs(evs)?)
         }
+        ["serialmts", wms, rms, rest @ ..] => {
+            // timed multi-exchange run on a slow port (first write call blocks wms ms, first read call rms ms)
+            let g: Vec<&[&str]> = rest.split(|t| *t == "|").collect();
+            if g.len() != 3 {
+                return None;
+            }
+            let msgs: Vec<Message<'static>> = g[0].iter().map(|t| parse_msg(t)).collect::<Option<_>>()?;
+            crate::iomock::PORT_LATENCY.with(|c| c.set((wms.parse().unwrap_or(0), rms.parse().unwrap_or(0))));
+            let r = crate::iomock::serial_multi_case(true, &msgs, crate::iomock::parse_revs(g[1])?, crate::iomock::parse_wevs(g[2])?);
+            crate::iomock::PORT_LATENCY.with(|c| c.set((0, 0)));
+            r?
+        }
         [verb @ ("serialm" | "serialmt"), rest @ ..] => {
             // several messages on one bus object: serialm M1 M2 .. | read events | write events
             let g: Vec<&[&str]> = rest.split(|t| *t == "|").collect();
